@@ -85,3 +85,4 @@ def count(name, lines, ib, stats, meta):
     idx = next((i for i, l in enumerate(lines) if l.startswith('frame 1')), len(lines))
     stats['distinct'].add((tuple(o for o in ops[max(0, idx - 5):idx - 1] if o is not None)[-3:], tuple(o for o in ops[idx:idx + 6:2] if o is not None)))
     if len(stats['samples']) < 3: stats['samples'].append({'scenario': name, 'history_frames': idx, 'continuation_frames': (len(lines) - idx) // 2})
+EXPLORE = dict(ops=('frame',), mtu=True, oracle=False)
